@@ -16,6 +16,10 @@ class FactsError(Exception):
     pass
 
 
+INLINE_MAX_PATHS = 12
+INLINE_MAX_DEPTH = 3
+
+
 class Fn:
     __slots__ = ("j", "id", "kind", "crate", "blocks", "locals", "argc", "parent",
                  "root", "trait_item", "assoc_name", "span", "sig", "pub", "debug",
@@ -122,6 +126,13 @@ class Facts:
         self.statics = []
         self.unsafe = []
         self.opts = {}
+        self._inline_cache = {}
+        kp = os.path.join(os.path.dirname(os.path.abspath(__file__)), "known_fns.json")
+        try:
+            with open(kp) as f:
+                self.known_fn_ids = set(json.load(f))
+        except OSError:
+            self.known_fn_ids = None
         for c in CRATES:
             p = os.path.join(facts_dir, c + ".json")
             if not os.path.exists(p):
@@ -186,6 +197,39 @@ class Facts:
         if f is None:
             raise KeyError(fid)
         return f
+
+    def is_new_fn(self, fid):
+        """a workspace function that did not exist when the rules were written (uecheck/known_fns.json): the rules
+        cannot name it, so the path walker sees through calls to it instead (helper extraction is not a violation,
+        and a defect moved into a fresh helper is still judged by the caller's rule)"""
+        if self.known_fn_ids is None:
+            return False
+        fn = self.fns.get(fid)
+        return fn is not None and not fn.is_closure and fid not in self.known_fn_ids
+
+    def inline_paths(self, fid, depth):
+        """walker paths of a new, loop-free, small function that writes through none of its parameters; else None"""
+        if depth >= INLINE_MAX_DEPTH:
+            return None
+        key = fid
+        if key in self._inline_cache:
+            return self._inline_cache[key]
+        self._inline_cache[key] = None         # recursion guard
+        from . import sym
+        fn = self.fns[fid]
+        try:
+            ps = sym.Walker(fn, self, depth=depth + 1).run()
+        except sym.PathLimit:
+            return None
+        ok = 0 < len(ps) <= INLINE_MAX_PATHS and all(p.end in ("return", "diverge", "unreachable") for p in ps)
+        if ok:
+            for p in ps:
+                for e in p.events:
+                    if e[0] in ("write", "setdiscr"):
+                        ok = False
+        res = ps if ok else None
+        self._inline_cache[key] = res
+        return res
 
     def find_fns(self, pattern):
         rx = re.compile(pattern)
